@@ -41,6 +41,7 @@ type c02Case struct {
 	NoRoots       bool     `json:"no_roots,omitempty"` // the layout lists no root CA: nobody is authorised through a certificate
 	Params        bool     `json:"params,omitempty"`   // verification with a (non-matching) parameter dictionary
 	DupPubKey     bool     `json:"dup_pubkey,omitempty"` // the step lists one authorised key id twice (still one functionary)
+	LinkDirName   string   `json:"link_dir_name,omitempty"` // name of the link directory ("" = links)
 }
 
 // c02Kind describes one kind of link file for step s0.
@@ -350,6 +351,7 @@ func c02World(c c02Case) (hx.World, map[string][]string, error) {
 	}
 	w.Layout = hx.WMetaFile{Name: "root.layout", Wrapper: c.LayoutWrapper, Meta: hx.MMeta{Layout: &lay}, Sigs: []hx.WSig{{Key: "ed25519-1"}}}
 	w.VerifierKeys = []hx.WKey{{Key: "ed25519-1"}}
+	w.LinkDirName = c.LinkDirName
 	if c.Params {
 		w.Params = map[string]string{"UNUSED_PARAMETER": "value", "OTHER": "{UNUSED_PARAMETER}"}
 	}
@@ -452,6 +454,7 @@ func c02Eval(c c02Case, r *hx.Rec) error {
 	r.Label("second_step=%v/first=%v", c.SecondStep, c.SecondStep && c.SecondFirst)
 	r.Label("foreign_intermediate=%v", c.ForeignInter)
 	r.Label("stepname=%q", c.StepName)
+	r.Label("linkdir=%q", c.LinkDirName)
 	if c.NoRoots {
 		r.Label("no-layout-roots")
 	}
@@ -461,7 +464,7 @@ func c02Eval(c c02Case, r *hx.Rec) error {
 	if c.DupPubKey {
 		r.Label("duplicate-pubkey")
 	}
-	r.Key("%d|%v%v%v%v%s|%s|%s|%s|%v%v%v", c.Threshold, c.SecondStep, c.SecondFirst, c.ForeignInter, c.MultiValued, c.StepName, c.LayoutWrapper, c.Intermediate, strings.Join(sorted, ","), c.NoRoots, c.Params, c.DupPubKey)
+	r.Key("%d|%v%v%v%v%s|%s|%s|%s|%v%v%v", c.Threshold, c.SecondStep, c.SecondFirst, c.ForeignInter, c.MultiValued, c.StepName, c.LayoutWrapper, c.Intermediate, strings.Join(sorted, ","), c.NoRoots, c.Params, c.DupPubKey) // (the link directory's name is not part of the key: it must not matter)
 
 	var first *bool
 	for rep := 0; rep < c.Repeats; rep++ {
@@ -557,12 +560,14 @@ func c02Gen(t *rapid.T) c02Case {
 		SecondFirst:   rapid.Bool().Draw(t, "secondfirst"),
 		ForeignInter:  rapid.Bool().Draw(t, "foreigninter"),
 		MultiValued:   rapid.Bool().Draw(t, "multivalued"),
-		StepName:      rapid.SampledFrom([]string{"", "", "build.v2", "release-1.0.x", "Build", "x"}).Draw(t, "stepname"),
+		StepName:      rapid.SampledFrom([]string{"", "", "build.v2", "release-1.0.x", "Build", "x", "build[x86]", "pkg*", "what?", "a\\b", "[", "{TAG}", "a b"}).Draw(t, "stepname"),
 		NoRoots:       rapid.IntRange(0, 7).Draw(t, "noroots") == 0,
 		Params:        rapid.IntRange(0, 3).Draw(t, "params") == 0,
 		DupPubKey:     rapid.IntRange(0, 3).Draw(t, "duppubkey") == 0,
 	}
 	c.Kinds = rapid.SliceOfNDistinct(rapid.SampledFrom(c02KindNames), 0, 5, rapid.ID[string]).Draw(t, "kinds")
+	// the directory holding the links is the user's: its name may contain anything a file name may
+	c.LinkDirName = rapid.SampledFrom([]string{"", "", "", "links[1]", "out*", "rel?ase", "a\\b", "link dir", "[", "links.d"}).Draw(t, "linkdirname")
 	return c
 }
 
